@@ -61,8 +61,11 @@ let to_clit = function
   | A "cnotint" -> Model.CNotInt
   | _ -> raise (Bad "clit")
 
-let to_cexpr = function
-  | L [A "cexpr"; first; plain] -> { Model.ce_first_lit = to_opt to_clit first; Model.ce_plain = to_opt to_z plain }
+let rec to_cexpr = function
+  | L [A "celit"; l] -> Model.CELit (to_clit l)
+  | L [A "ceparen"; e] -> Model.CEParen (to_cexpr e)
+  | L [A "ceneg"; e] -> Model.CENeg (to_cexpr e)
+  | A "ceother" -> Model.CEOther
   | _ -> raise (Bad "cexpr")
 
 let rec to_use_tree = function
